@@ -749,6 +749,10 @@ class Evaluator:
                 return a * b
             if isinstance(op, ast.Div) and b != 0:
                 return a / b
+        if self.float_arith and isinstance(a, int) and isinstance(b, int) and isinstance(op, ast.Div):
+            if b == 0:
+                raise Raised("ZeroDivisionError")
+            return a / b
         if isinstance(a, int) and isinstance(b, int):
             if isinstance(op, ast.Add):
                 return a + b
